@@ -104,8 +104,12 @@ namespace occa {
 
     const udim_t alignedBytes = ((bytes + alignment - 1) / alignment) * alignment;
 
-    /*If pool is too small, resize and put the new reservation at the end*/
-    if (reserved + bytes > size) {
+    /*
+    If pool is too small, resize and put the new reservation at the end.
+    The whole aligned extent has to fit: the size is not always a multiple
+    of the alignment (setAlignment on an empty pool keeps the buffer)
+    */
+    if (reserved + alignedBytes > size) {
       resize(reserved + alignedBytes);
       return slice(reserved, bytes);
     }
@@ -126,7 +130,7 @@ namespace occa {
       offset = std::max(offset, mhi); /*Shift the potential region*/
     }
 
-    if (offset + bytes <= size) {
+    if (offset + alignedBytes <= size) {
       return slice(offset, bytes);
     } else {
       /*Free space is fragmented: pack the reservations even if the size stays the same*/
